@@ -120,6 +120,12 @@ class Ctx(object):
         self.exhaustive = True
         self.extra = {}
         self._pool = None
+        # one scratch directory per run, created before the workers fork and removed when the run ends
+        # (worker processes leave through os._exit, so their own atexit handlers would never run)
+        import tempfile
+
+        self.tmp_root = tempfile.mkdtemp(prefix="cutplace_verif_run_")
+        os.environ["VERIF_TMP"] = self.tmp_root
 
     # ---- parallel driver -------------------------------------------------------
     def pool(self):
@@ -163,6 +169,10 @@ class Ctx(object):
             self._pool.close()
             self._pool.join()
             self._pool = None
+        if self.tmp_root and os.path.isdir(self.tmp_root):
+            import shutil
+
+            shutil.rmtree(self.tmp_root, ignore_errors=True)
 
 
 # ---- known findings ----------------------------------------------------------------
